@@ -69,3 +69,7 @@ Proof. vm_compute. split; reflexivity. Qed.
    produces a TIMESTAMP_NS column) *)
 Lemma info_timestamp_ns_refuted_l : exists t m, sf_meta t = Some m /\ info_name t <> Some (sf_name (kind m)).
 Proof. exists DTimestampNs, (mk TsNtz (Some 0) (Some 9) None). split; [reflexivity|]. vm_compute. discriminate. Qed.
+
+(* the metadata computed the way types.py writes it (dict, then the if/elif chain held as data in meta_rules) is sf_meta *)
+Theorem sf_meta_by_rules_l : forall t, sf_meta_rules t = sf_meta t.
+Proof. intros t. destruct t; vm_compute; reflexivity. Qed.
